@@ -196,7 +196,7 @@ def rec_equal(E, x, r, cnt, ev, R, n, m):
                  [cnt == R['cnt'], ev == R['ev']])
 
 
-def body(E, n, m, num_pts, npt_so_far, preset, with_h=False, xr=False, nsample_mode='one', fault=None, proj=False):
+def body(E, n, m, num_pts, npt_so_far, preset, with_h=False, xr=False, nsample_mode='one', fault=None, proj=False, proj_full=False):
     np = E.np
     log = EvalLog()
     objfun = mk_objfun(E, m, log, xr=xr, raise_at=(0 if fault == 'raise' else (1 if fault == 'raise1' else None)))
@@ -306,7 +306,8 @@ def body(E, n, m, num_pts, npt_so_far, preset, with_h=False, xr=False, nsample_m
         for dk in rec['dyk']:
             E.prove(len(dk['P']) == 2 and dk['P'][-1] is rec['boxP'], 'C09:step:projection-uses-the-model-list-with-the-box-last')
         E.reach('C09:step:checked')
-        return
+        if not proj_full:
+            return
     check_step(E, outcome, exc, env, pre, C, M, params, log, rec, old_records, n, m, preset, xr, nsample_mode, fault, epilogue)
 
 
@@ -658,12 +659,17 @@ def step_harnesses(tier, seed, pid):
         combos = [D + ('default', False, False, 'one', None), D + ('regression-momentum', False, False, 'one', None)] if tier == 'quick' else \
             [D + (p_, False, False, 'one', None) for p_ in ('default', 'soft-restarts', 'regression-geom', 'regression-momentum')] + \
             [(2, 1, 3, 2, 'growing', False, False, 'one', None)]
-    for (n, m, num_pts, npt_so_far, preset, with_h, xr, nsm, fault) in combos:
+    if pid == 'C04':
+        # general convex constraints (two projectors): the ratio test has its own exit for a model increase - the whole iteration is checked
+        combos = list(combos) + [D + ('default', False, False, 'one', None, True)]
+    for combo in combos:
+        (n, m, num_pts, npt_so_far, preset, with_h, xr, nsm, fault) = combo[:9]
+        pfull = len(combo) > 9 and combo[9]
         name = "step[n=%d,m=%d,npt=%d/%d,%s,h=%d,xr=%d,ns=%s%s%s]" % (n, m, npt_so_far, num_pts, preset, with_h, xr, nsm, ',fault=' + fault if fault else '',
-                                                                    ',projections' if pid == 'C09' else '')
+                                                                    ',projections' if (pid == 'C09' or pfull) else '')
         hs.append(Harness(name, 'dfverif.step', 'body',
                           params=dict(n=n, m=m, num_pts=num_pts, npt_so_far=npt_so_far, preset=preset, with_h=with_h, xr=xr,
-                                      nsample_mode=nsm, fault=fault, proj=(pid == 'C09')),
+                                      nsample_mode=nsm, fault=fault, proj=(pid == 'C09' or pfull), proj_full=pfull),
                           cfg=core.Cfg(qtimeout_ms=20000, uflin=True, max_depth=3000), functions=FUNCS,
                           bounds="one main-loop iteration from any state satisfying INV; n=%d, m=%d, %d of %d points, option preset '%s', samples per point %s" % (
                               n, m, npt_so_far, num_pts, preset, nsm),
